@@ -148,6 +148,85 @@ def _classify(op_name, f):
     return "UNKNOWN:%s" % (f["ops"],)
 
 
+def _specialise(body, op):
+    """The statements of a multi-operator branch as executed for operator `op`: `if op_name == c` / `op_name in [...]` tests are
+    decided, everything else is kept."""
+    out = []
+    for st in body:
+        if isinstance(st, ast.If) and isinstance(st.test, ast.Compare) and norm(st.test.left) == "op_name" and len(st.test.ops) == 1:
+            o = st.test.ops[0]
+            c = st.test.comparators[0]
+            val = None
+            if isinstance(o, (ast.Eq, ast.NotEq)) and isinstance(c, ast.Constant):
+                val = (c.value == op) == isinstance(o, ast.Eq)
+            elif isinstance(o, (ast.In, ast.NotIn)) and str_elts(c) is not None:
+                val = (op in str_elts(c)) == isinstance(o, ast.In)
+            if val is not None:
+                out.extend(_specialise(st.body if val else st.orelse, op))
+                continue
+        out.append(st)
+    return out
+
+
+def _rotation(stmts):
+    """Classify a straight-line rotation folding: returns ('ROTR'|'ROTL'|'ROT_COUNT_MASKED'|'ROT_UNREDUCED'|None, description).
+    Assignments are substituted in order, widths are unified (the folding loop only pairs constants of one width), then
+    out = (x SH1 A) | (x SH2 B) is matched with A a count reduced modulo the width and B = width - A."""
+    from sa.astutil import clone
+    env = {}
+
+    def subst(e):
+        class T(ast.NodeTransformer):
+            def visit_Name(self, n):
+                if isinstance(n.ctx, ast.Load) and n.id in env:
+                    return clone(env[n.id])
+                return n
+        return T().visit(clone(e))
+    out = None
+    for st in stmts:
+        if isinstance(st, ast.Assign) and len(st.targets) == 1 and isinstance(st.targets[0], ast.Name):
+            v = subst(st.value)
+            if st.targets[0].id == "out":
+                out = v
+            else:
+                env[st.targets[0].id] = v
+        elif isinstance(st, (ast.Expr, ast.Pass)):
+            continue
+        else:
+            return None, "statement `%s` in a rotation branch" % norm(st)[:50]
+    if out is None:
+        return None, "no assignment to out"
+
+    def canon(e):
+        t = norm(e).replace(" ", "")
+        for a in ("int1.size", "int2.size", "expr.size"):
+            t = t.replace(a, "W")
+        t = t.replace("int(int2)", "c").replace("int(int1)", "x").replace("int2.arg", "c").replace("int1.arg", "x")
+        return t
+    if isinstance(out, ast.Call) and isinstance(out.func, ast.Subscript) and dotted(out.func.value) == "mod_size2uint" and out.args:
+        out = out.args[0]
+    if not (isinstance(out, ast.BinOp) and isinstance(out.op, ast.BitOr) and isinstance(out.left, ast.BinOp) and isinstance(out.right, ast.BinOp)):
+        return None, "out = %s" % canon(out)[:80]
+    l, r = out.left, out.right
+    lo, ro = PYOP.get(type(l.op)), PYOP.get(type(r.op))
+    if set([lo, ro]) != set([">>", "<<"]) or canon(l.left) != "x" or canon(r.left) != "x":
+        return None, "out = %s" % canon(out)[:80]
+    a, b = canon(l.right), canon(r.right)
+    desc = "(x %s %s) | (x %s %s)" % (lo, a, ro, b)
+    if "&(W-1)" in a or "&W-1" in a or "(W-1)&" in a:
+        return "ROT_COUNT_MASKED", desc + ": `& (width - 1)` is the count modulo the width only for power-of-two widths"
+    strip = lambda t: t[1:-1] if t.startswith("(") and t.endswith(")") else t
+    if b not in ("W-%s" % a, "W-(%s)" % a, "(W-%s)" % a, "(W-(%s))" % a):
+        return "ROT_UNREDUCED", desc + ": the second amount is not width - first amount"
+    if strip(a) in ("c%W",):
+        return ("ROTR" if lo == ">>" else "ROTL"), desc
+    if strip(a) in ("(W-c%W)%W", "(W-(c%W))%W", "(W-c)%W"):
+        return ("ROTL" if lo == ">>" else "ROTR"), desc
+    if "%W" not in a:
+        return "ROT_UNREDUCED", desc + ": the count is not reduced modulo the width"
+    return None, desc
+
+
 def _modint_classes(ck):
     m = ck.repo.mod(MI)
     d = m.func("moduint.__div__")
@@ -181,6 +260,18 @@ def run(ck):
             par = getattr(n, "_parent", None)
             if isinstance(par, (ast.While, ast.If)) and any(isinstance(x, ast.While) for x in _ancestors(n)):
                 chain.setdefault(n.test.comparators[0].value, n)
+    # branches selecting several operators at once (`op_name in [...]`), refined inside by `if op_name == ...`
+    multi = {}
+    for n in walk_body(fn):
+        if isinstance(n, ast.If) and isinstance(n.test, ast.Compare) and norm(n.test.left) == "op_name" and isinstance(n.test.ops[0], ast.In) \
+                and any(isinstance(x, ast.While) for x in _ancestors(n)):
+            ops_ = str_elts(n.test.comparators[0]) or []
+            for o in ops_:
+                multi.setdefault(o, n)
+    for o, n in multi.items():
+        # a nested `if op_name == o` found above is a refinement of this branch, not the branch of o
+        if o in chain and any(a is n for a in _ancestors(chain[o])):
+            del chain[o]
     trunc, dividend, mi, dfn, mfn = _modint_classes(ck)
     for op in table:
         ref = OT0.get(op)
@@ -188,6 +279,15 @@ def run(ck):
             ck.ob("R1", "fold:%s" % op, False, m.where(fn), "operator %r is folded but has no reference meaning" % op)
             continue
         br = chain.get(op)
+        if br is None and op in multi:
+            br = ast.If(test=multi[op].test, body=_specialise(multi[op].body, op), orelse=[])
+            ast.copy_location(br, multi[op])
+        if br is not None and ref in ("ROTL", "ROTR"):
+            got, how = _rotation(_specialise(br.body, op))
+            if got is None:
+                raise AnalysisError("simp_cst_propagation: folding branch of %r not understood (%s)" % (op, how))
+            ck.ob("R1", "fold:%s" % op, got == ref, m.where(br), "operator %r folds as %s (%s); the reference operation is %s" % (op, got, how, ref))
+            continue
         if br is None:
             ck.ob("R1", "fold:%s" % op, False, m.where(fn), "operator %r is listed in op_propag_cst but has no folding branch: `out` keeps a stale value" % op)
             continue
